@@ -30,9 +30,9 @@ PROPS = {
     'C10': dict(lean_quick=['Props.C10Fin'], prefixes=['p8e0::{', 'p16e1::{', 'p32e2::{', 'pxe1::{', 'pxe2::{']),
     'C17': dict(lean_quick=['Props.C17Fin'], prefixes=['p8e0', 'p16e1', 'p32e2', 'quire']),
     'C11': dict(lean_quick=['Props.C11Fin'], prefixes=['p16e1::math', 'p8e0::math']),
-    'C18': dict(lean_quick=[], prefixes=['polynom']),
+    'C18': dict(lean_quick=['Props.C18'], prefixes=['polynom']),
     'C19': dict(lean_quick=['Props.C19'], prefixes=['p8e0::{impl#15}', 'p16e1::{impl#15}', 'p32e2::{impl#15}'], assumptions=['rand 0.8: gen_range(lo..hi) returns a value in [lo, hi)']),
-    'C04': dict(lean_quick=['Props.C04'], prefixes=['quire8', 'quire16', 'quire32']),
+    'C04': dict(lean_quick=['Props.C04', 'Props.C04Hist'], prefixes=['quire8', 'quire16', 'quire32']),
     'C12': dict(lean_quick=['Props.C12'], prefixes=['quire8', 'quire16', 'quire32']),
 }
 OVERRIDE_PROPS = {'C04', 'C12', 'C14', 'C15', 'C16', 'C18'}
